@@ -21,6 +21,26 @@ def kinds : List Kind := [.pass, .block, .complete, .error, .rt]
 def isPerm (a b : List String) : Bool :=
   a.length == b.length && a.all (fun x => a.count x == b.count x) && b.all (fun x => a.count x == b.count x)
 
+/-- Are the rules the implementation holds after a load (`held`, by id) an acceptable outcome for the `loaded` list?
+Rule sets hash the id but compare without it, so a rule given twice under two ids may be kept once or twice: every held
+id must be a loaded one (no repeats), and every loaded rule must be equal — ignoring the id — to some held rule. -/
+def heldOk {α : Type} (getId : α → String) (eqv : α → α → Bool) (loaded : List α) (held : List String) : Bool :=
+  held.all (fun h => held.count h == 1 && loaded.any (fun r => getId r == h)) &&
+  loaded.all (fun r => loaded.any (fun r' => held.contains (getId r') && eqv r r'))
+
+def flowEqv (a b : World.FlowSpec) : Bool :=
+  a.thr == b.thr && a.ivl == b.ivl && a.warmUp == b.warmUp && a.throttling == b.throttling && a.period == b.period &&
+  a.coldFactor == b.coldFactor && a.maxQueueMs == b.maxQueueMs
+def isoEqv (a b : IsoRule) : Bool := a.thr == b.thr
+def sysEqv (a b : SysRule) : Bool := a.metric == b.metric && a.bbr == b.bbr && a.thr == b.thr
+def hsEqv (a b : HsRule) : Bool :=
+  a.metric == b.metric && a.strategy == b.strategy && a.paramIndex == b.paramIndex && a.paramKey == b.paramKey && a.thr == b.thr &&
+  a.durSec == b.durSec && a.maxCap == b.maxCap && a.specific == b.specific &&
+  (if a.strategy == .reject then a.burst == b.burst else a.maxQueueMs == b.maxQueueMs)
+def brEqv (a b : BRule) : Bool :=
+  a.strategy == b.strategy && a.retryMs == b.retryMs && a.minReq == b.minReq && a.ivl == b.ivl && a.buckets == b.buckets &&
+  (match a.strategy with | .slowRatio => a.maxRt == b.maxRt && a.thr == b.thr | _ => a.thr == b.thr)
+
 /-! ### Spec state, built only from the operations and the implementation's observations -/
 
 structure SRule where
@@ -413,7 +433,7 @@ def stepCase (st : St) (v : Verdict) (i : Nat) (opText obs : String) : St × Ver
     match op.str "res", parseFlowRules (op.list "rules") with
     | .ok res, .ok rules =>
       let ids := listOf (obsField obs "ctrls")
-      if !isPerm (rules.map (·.id)) ids then
+      if !heldOk (·.id) flowEqv rules ids then
         (st, v.setDiff s!"step={i} op=[{opText}] controllers held by the implementation are not the loaded rules: [{obs}]")
       else
         let rules' := reorder (·.id) rules ids
@@ -441,7 +461,7 @@ def stepCase (st : St) (v : Verdict) (i : Nat) (opText obs : String) : St × Ver
     match op.str "res", parseIsoRules (op.list "rules") with
     | .ok res, .ok rules =>
       let ids := listOf (obsField obs "rules")
-      if !isPerm (rules.map (·.id)) ids then
+      if !heldOk (·.id) isoEqv rules ids then
         (st, v.setDiff s!"step={i} op=[{opText}] rules held by the implementation are not the loaded rules: [{obs}]")
       else
         let rules' := reorder (·.id) rules ids
@@ -451,10 +471,11 @@ def stepCase (st : St) (v : Verdict) (i : Nat) (opText obs : String) : St × Ver
     match parseSysRules (op.list "rules") with
     | .ok rules =>
       let ids := listOf (obsField obs "rules")
-      if !isPerm (rules.map (·.id)) ids then
+      if !heldOk (·.id) sysEqv rules ids then
         (st, v.setDiff s!"step={i} op=[{opText}] rules held by the implementation are not the loaded rules: [{obs}]")
       else
         let rules' := reorder (·.id) rules ids
+        let v := if rules'.length < rules.length then v.addTag "equal-rule-kept-once" else v
         let v := if rules'.any (·.bbr) then v.addTag "bbr-rule" else v
         ({ w := { w with sys := rules' }, sp := { sp with sys := rules' } }, v.addTag "system-rules")
     | _ => bad "bad-op"
@@ -469,7 +490,7 @@ def stepCase (st : St) (v : Verdict) (i : Nat) (opText obs : String) : St × Ver
     match op.str "res", parseHsRules (op.list "rules") with
     | .ok res, .ok rules =>
       let ids := listOf (obsField obs "ctrls")
-      if !isPerm (rules.map (·.id)) ids then
+      if !heldOk (·.id) hsEqv rules ids then
         (st, v.setDiff s!"step={i} op=[{opText}] controllers held by the implementation are not the loaded rules: [{obs}]")
       else
         let rules' := reorder (·.id) rules ids
@@ -483,7 +504,7 @@ def stepCase (st : St) (v : Verdict) (i : Nat) (opText obs : String) : St × Ver
     match op.str "res", parseBrRules (op.list "rules") with
     | .ok res, .ok rules =>
       let ids := listOf (obsField obs "breakers")
-      if !isPerm (rules.map (·.id)) ids then
+      if !heldOk (·.id) brEqv rules ids then
         (st, v.setDiff s!"step={i} op=[{opText}] breakers held by the implementation are not the loaded rules: [{obs}]")
       else
         let rules' := reorder (·.id) rules ids
